@@ -362,6 +362,10 @@ fn expect_err(rep: &mut Report, number: u16, m: &Message, want: &str, class: &st
 
 const PARTS: u32 = 8;
 
+fn dim_is_3(tier: Tier, number: u16) -> bool {
+    !(tier.thorough() || number == 1074 || number % 10 == 7)
+}
+
 fn check_type(rep: &mut Report, number: u16, tier: Tier, part: u32) {
     let table = sig_table(number);
     let nsig = table.len();
@@ -370,6 +374,10 @@ fn check_type(rep: &mut Report, number: u16, tier: Tier, part: u32) {
     gpos.sort();
     gpos.dedup();
     let spos: [u8; 4] = [1, 2, 33, 64];
+    if dim_is_3(tier, number) && gpos.len() == 4 {
+        // 3x3 scope: first, middle and last recognised signal (the last one sits at the highest mask position)
+        gpos = vec![gpos[0], gpos[2], gpos[3]];
+    }
     // quick: 3x3 scope for every type, 4x4 for 1074 and the MSM7 type of every constellation; thorough: 4x4 everywhere
     let dim = if tier.thorough() || number == 1074 || number % 10 == 7 { 4usize } else { 3usize };
     let gd = dim.min(gpos.len());
